@@ -12,6 +12,7 @@ exit 1: `VIOLATION property=<id> replay=<path>` printed; exit 2: inconclusive in
 import fcntl
 import json
 import os
+import shutil
 import subprocess
 import sys
 import time
@@ -183,11 +184,16 @@ def run_job(job, tier, seed, outdir, idx):
     env["IPCV_WATCHDOG"] = str(job.get("watchdog", 10 if tier == "quick" else 30))
     timeout = job.get("timeout", 420 if tier == "quick" else 5400)
     t0 = time.time()
+    proc = subprocess.Popen(cmd, stdout=subprocess.PIPE, stderr=subprocess.PIPE, text=True, env=env)
     try:
-        p = subprocess.run(cmd, stdout=subprocess.PIPE, stderr=subprocess.PIPE, text=True, timeout=timeout, env=env)
-        rc, so, se = p.returncode, p.stdout, p.stderr
+        so, se = proc.communicate(timeout=timeout)
+        rc = proc.returncode
     except subprocess.TimeoutExpired as e:
+        proc.kill()
+        proc.communicate()
         rc, so, se = -999, "", "job timed out after %ds: %s" % (timeout, e)
+    # the worker's private TMPDIR (removed by the worker itself unless it was killed)
+    shutil.rmtree("/tmp/ipcv.%d" % proc.pid, ignore_errors=True)
     rep = None
     if os.path.exists(out):
         try:
